@@ -252,7 +252,9 @@ INLINE_SAFE = {
     "C05": [r"^K2\.(per-element|at-most-once|against-the-data)$"],
     "C08": [r"^K3\.(fresh-operands|owned-by-conversion)$"],
     "C09": [r"^K2\.(to-primitive|case|both-operands)$", r"^K3\.to-primitive-shared$", r"^K1\.(conjunction|three-operand|untouched)$"],
+    "C13": [r"^K3\.reduce-(context|fresh|binding)$"],
     "C14": [r"^K4\.predicate-site$"],
+    "C15": [r"^K3\.pair$"],
     "C16": [r"^K2\.integer-operands$"],
     "C17": [r"^K3\.(effect|log-once|per-element|at-most-once)$"],
     "C18": [r"^K1\.", r"^K3\.", r"^K4\.fail-"],
